@@ -23,6 +23,11 @@ MAX_NT_PER_SHARD = 250000
 MAX_ROUNDS = 6
 
 
+class _StopShrink(KeyboardInterrupt):
+    """raised inside a Hypothesis test body to leave the engine when shrinking has gone on well past its budget (Hypothesis lets
+    KeyboardInterrupt through untouched)"""
+
+
 class Violation(Exception):
     """The property is false on a concrete case. key identifies the oracle clause (root cause bucket)."""
 
@@ -292,10 +297,16 @@ class Ctx:
         fn = fn or self.mod.check_case
         shrink_s = shrink_s if shrink_s is not None else (40 if self.quick else 120)
         for rnd in range(MAX_ROUNDS):
+            if rnd == 1:
+                shrink_s = min(shrink_s, 12)        # behind the first finding of a shard: search on, but shrink briefly
             state = {'first_fail': None, 'failing': {}, 'last': None}
 
             def body(case):
                 t_ = time.time()
+                if state['first_fail'] is not None and t_ - state['first_fail'] > shrink_s + 20 and state['last'] is not None:
+                    raise _StopShrink()      # well past the budget: leave Hypothesis altogether with the smallest failing case so far
+                if state['first_fail'] is not None and t_ - state['first_fail'] > shrink_s and digest(case) not in state['failing']:
+                    return          # shrink budget used up: candidates that are not already known to fail are not even evaluated
                 try:
                     info = guarded(fn, case)
                 except Violation as v:
@@ -327,6 +338,9 @@ class Ctx:
                 with contextlib.redirect_stdout(io.StringIO()):
                     test()
                 return
+            except _StopShrink:
+                vv, case = state['last']
+                self.violation(vv, case)
             except Violation as v:
                 vv, case = state['last'] if state['last'] is not None else (v, v.case)
                 self.violation(vv, case)
@@ -578,7 +592,8 @@ def main(argv):
     # reported like the others; replay files remember the mode. (VERIF_NO_PYOPT=1 switches it off.)
     pyopt_note = None
     pyopt_vios = []
-    if not sys.flags.optimize and not os.environ.get('VERIF_NO_PYOPT'):
+    found_already = any(r['violations'] for r in results)
+    if not sys.flags.optimize and not os.environ.get('VERIF_NO_PYOPT') and not found_already:
         import subprocess
         import tempfile
         evtmp = tempfile.mkdtemp(prefix='pyopt-ev.', dir=os.environ.get('VERIF_WORK') or tempfile.gettempdir())
